@@ -36,6 +36,11 @@ def run_program(chk, E, prog, gflags, name, with_test, with_run):
         b = E.run_garble(gflags, ["run"] + e2e.ldflag_args(prog) + [".", "p", "q"], res["root"])
         if (a.returncode, a.stdout) != (b.returncode, b.stdout):
             out.append({"why": "garble run differs from go run", "detail": {"go": [a.returncode, a.stdout[-800:], a.stderr[-400:]], "garble": [b.returncode, b.stdout[-800:], b.stderr[-1500:]]}, **meta})
+        # a program argument that looks like a source file: only the leading arguments name the package
+        a = E.run_go(["run", "-trimpath"] + e2e.ldflag_args(prog) + [".", "data/input.go", "notes.txt"], res["root"])
+        b = E.run_garble(gflags, ["run"] + e2e.ldflag_args(prog) + [".", "data/input.go", "notes.txt"], res["root"])
+        if (a.returncode, a.stdout) != (b.returncode, b.stdout):
+            out.append({"why": "garble run with a program argument ending in .go differs from go run", "detail": {"go": [a.returncode, a.stdout[-800:], a.stderr[-400:]], "garble": [b.returncode, b.stdout[-800:], b.stderr[-1500:]]}, **meta})
     if with_test and prog.tests:
         a = E.run_go(["test", "-trimpath", "-vet=off", "./..."], res["root"])
         b = E.run_garble(gflags, ["test", "./..."], res["root"])
